@@ -85,6 +85,12 @@ class Mod:
                 if self.inlined:
                     _nm.canon_consts(self.tree)
             self.renames = names.canonicalise(self.tree, rel)
+            if not os.environ.get("LXS_NO_INLINE"):
+                # helpers that became single-expression functions once their own new locals were inlined
+                more = names.inline_new_helpers(self.tree, rel)
+                if more:
+                    self.inlined += more
+                    _nm.canon_consts(self.tree)
         # `==` / `!=` are read in the orientation the pinned tree uses (or constant on the right)
         if not os.environ.get("LXS_NO_CMPCANON"):
             _nm.canon_eq(self.tree, rel)
